@@ -114,6 +114,23 @@ Definition img (c : icfg) (x : list R) (l : list pstate) : C :=
 Definition img_all (c : icfg) (x : list R) (l : list pstate) : C :=
   sumC (map (term c x) l).
 
+(* the same value in polar form (one cos / sin per state): proved equal to [img_list] in
+   Proofs/ImagingProofs.v (img_list_polar); this is the expression handed to the Interval tactic *)
+Definition theta (c : icfg) (x : list R) (s : pstate) : R :=
+  kdot (sk s) x
+  + match modul_eff c with Some (_, Some im) => st s * 2 * PI * im | _ => 0 end
+  + match phase c with Some p => p * PI / 180 | None => 0 end.
+Definition amp (c : icfg) (s : pstate) : R := form c s * modre c s.
+Definition term_polar (c : icfg) (x : list R) (s : pstate) : C :=
+  let g := Cmult (sF s) (wfac c) in
+  (amp c s * (fst g * cos (theta c x s) - snd g * sin (theta c x s)),
+   amp c s * (fst g * sin (theta c x s) + snd g * cos (theta c x s))).
+Fixpoint img_polar (keeps : list bool) (c : icfg) (x : list R) (l : list pstate) : C :=
+  match keeps, l with
+  | b :: rb, s :: rs => Cplus (if b then term_polar c x s else RtoC 0) (img_polar rb c x rs)
+  | _, _ => RtoC 0
+  end.
+
 (* ---- reduce: the un-reduced output is a (batch x position) matrix ---- *)
 Definition reduce_ax1 (m : list (list C)) : list C := map sumC m.
 Fixpoint addrows (a b : list C) : list C :=
